@@ -11,7 +11,9 @@
      draw_pos     : each entry is > 0 (true of numpy's generator except with probability
                     2^-53 per draw; only zero_volume_never uses it) *)
 From Coq Require Import Reals ZArith List Permutation.
-From PV Require Import Num NumR Model_stats Proofs_stats Proofs_stats_batch.
+From PV Require Import Num NumR Model_stats Proofs_stats Proofs_stats_batch Inst_stats Inst_stats_all
+                       Model_stats_session Proofs_stats_session.
+From PV.gen Require Import Gen_stats.
 Import ListNotations.
 Open Scope R_scope.
 
@@ -228,3 +230,182 @@ Example C15_u0_nonvacuous :
   gather [1/2; 0; 1/2] [1; 0; 2]%nat = Ok [0; 1/2; 1/2] /\
   Forall (fun y => nth 0 [0; 1/2; 1/2] 0 <= y) [0; 1/2; 1/2] /\ In 0 [1/2; 0; 1/2].
 Proof. exact u0_hypotheses_satisfiable. Qed.
+
+(* ================================================================================================ *)
+(* TIE T: statements about the code REGENERATED from pydrex/stats.py on every run (gen/Gen_stats.v). *)
+(* `generated N M ns n g` enumerates the 15 definitions traced from the public function             *)
+(* resample_orientations (N x M = 1x1, 1x2, 1x3, 2x2; n_samples = 1..3 or omitted; np.argsort and    *)
+(* Generator.random are oracles: one permutation code per snapshot, an N x n array of variates);     *)
+(* `validated ro rf k` the 24 traces of its shape test on symbolic dimensions.  Arrays are flat      *)
+(* (`A l` = `mk_arr 0 l`), `grains` / `rows` are their nested views.                                 *)
+(* ================================================================================================ *)
+
+(* every generated definition IS the hand-written model (all inputs, all sort permutations) *)
+Theorem C15_generated_is_model :
+  forall N M ns n g, generated N M ns n g ->
+  forall pis o f u, flat_ok N M n pis o f u -> g pis o f u = pack (model N M ns n pis o f u).
+Proof. exact generated_is_model. Qed.
+
+(* the generated shape test is Model_stats.shape_bad, for all dimensions and all ranks 0..5 / 0..3 *)
+Theorem C15_generated_validation_is_model :
+  forall ro rf k, validated ro rf k ->
+  forall so sf, length so = ro -> length sf = rf -> k so sf = validate_model so sf.
+Proof. exact validated_is_model. Qed.
+
+(* ... hence it lets exactly (N, M, 3, 3) / (N, M) through and raises ValueError otherwise, before
+   the generator is created (`Ok 0` = np.random.default_rng was reached) *)
+Theorem C15_generated_validation_spec :
+  forall ro rf k, validated ro rf k ->
+  forall so sf, length so = ro -> length sf = rf ->
+  (k so sf = Ok 0 <-> exists N M, so = [N; M; 3; 3]%nat /\ sf = [N; M]) /\
+  (k so sf = Ok 0 \/ k so sf = Err ValueError).
+Proof. exact validated_spec. Qed.
+
+Theorem C15_generated_negative_samples :
+  forall o f : list R, length o = 18%nat -> length f = 2%nat ->
+  @k_resample_N1_M2_neg NumR (A o) (A f) = Err ValueError.
+Proof. exact generated_negative_samples. Qed.
+
+(* pairing, on generated code: every returned (orientation, volume) is a grain of the same snapshot *)
+Theorem C15_generated_membership :
+  forall N M ns n g, generated N M ns n g ->
+  forall pis o f u ao af, flat_ok N M n pis o f u -> g pis o f u = Ok (ao, af) ->
+  exists oo ff, ao = A (concat (concat oo)) /\ af = A (concat ff) /\
+  forall i s orow frow ori x,
+    nth_error oo i = Some orow -> nth_error ff i = Some frow ->
+    nth_error orow s = Some ori -> nth_error frow s = Some x ->
+    exists osnap fsnap j, nth_error (grains N M o) i = Some osnap /\ nth_error (rows N M f) i = Some fsnap /\
+      nth_error osnap j = Some ori /\ nth_error fsnap j = Some x.
+Proof. exact generated_membership. Qed.
+
+(* zero-volume grains are never drawn, on generated code (variates in (0,1)) *)
+Theorem C15_generated_zero_volume_never :
+  forall N M ns n g, generated N M ns n g ->
+  forall pis o f u ao af, flat_ok N M n pis o f u -> g pis o f u = Ok (ao, af) ->
+  Forall (fun x => 0 < x < 1) u ->
+  Forall (fun r => Forall (fun x => 0 <= x) r /\ lsum r = 1) (rows N M f) ->
+  forall k, (k < N * n)%nat -> 0 < af k.
+Proof. exact generated_zero_volume_never. Qed.
+
+(* ... and with variates in [0,1): a volume <= 0 is returned only for a variate that is exactly 0 *)
+Theorem C15_generated_zero_volume_only_at_u0 :
+  forall N M ns n g, generated N M ns n g ->
+  forall pis o f u ao af, flat_ok N M n pis o f u -> g pis o f u = Ok (ao, af) ->
+  Forall (fun x => 0 <= x < 1) u ->
+  Forall (fun r => Forall (fun x => 0 <= x) r /\ lsum r = 1) (rows N M f) ->
+  exists oo ff, ao = A (concat (concat oo)) /\ af = A (concat ff) /\
+  forall i s frow x, nth_error ff i = Some frow -> nth_error frow s = Some x -> x <= 0 ->
+    exists urow, nth_error (rows N n u) i = Some urow /\ nth_error urow s = Some 0.
+Proof. exact generated_zero_volume_only_at_u0. Qed.
+
+(* probability = volume, on generated code: with fa / oa the volumes / orientations of snapshot i in
+   sort order, a variate 0 < u_s in the cumulative interval (psum fa k, psum fa (k+1)] -- of length
+   fa_k -- returns exactly grain k (its volume and its orientation) *)
+Theorem C15_generated_draw_interval :
+  forall N M ns n g, generated N M ns n g ->
+  forall pis o f u ao af, flat_ok N M n pis o f u -> g pis o f u = Ok (ao, af) ->
+  Forall (fun r => Forall (fun x => 0 <= x) r /\ lsum r = 1) (rows N M f) ->
+  exists oo ff, ao = A (concat (concat oo)) /\ af = A (concat ff) /\
+  forall i orow frow, nth_error oo i = Some orow -> nth_error ff i = Some frow ->
+  exists osnap fsnap pi urow fa oa,
+    nth_error (grains N M o) i = Some osnap /\ nth_error (rows N M f) i = Some fsnap /\
+    nth_error pis i = Some pi /\ nth_error (rows N n u) i = Some urow /\
+    gather fsnap pi = Ok fa /\ gather osnap pi = Ok oa /\ Permutation fa fsnap /\
+    forall s us k, nth_error urow s = Some us -> 0 < us -> (k < length fa)%nat ->
+      psum fa k < us <= psum fa (S k) ->
+      nth_error frow s = Some (nth k fa 0) /\ nth_error orow s = nth_error oa k /\
+      psum fa (S k) - psum fa k = nth k fa 0.
+Proof. exact generated_draw_interval. Qed.
+
+(* non-vacuity: a member of the family, arguments satisfying every hypothesis used above, and the
+   value the generated code returns on them (grains (1..9, 3/4), (11..19, 1/4); sort order [1; 0];
+   variates 1/2, 1/8) *)
+Example C15_generated_nonvacuous :
+  let pis := [[1; 0]%nat] in let f := [3/4; 1/4] in let u := [1/2; 1/8] in
+  generated 1 2 (Some 2%Z) 2
+    (fun pis o f u => @k_resample_N1_M2_n2 NumR (A o) (A f) (A u) (perm_code (nth 0 pis []))) /\
+  flat_ok 1 2 2 pis ex_o f u /\
+  Forall (fun x => 0 < x < 1) u /\
+  Forall (fun r => Forall (fun x => 0 <= x) r /\ lsum r = 1) (rows 1 2 f) /\
+  @k_resample_N1_M2_n2 NumR (A ex_o) (A f) (A u) (perm_code (nth 0 pis []))
+    = Ok (A (map IZR [1;2;3;4;5;6;7;8;9; 11;12;13;14;15;16;17;18;19]%Z), A [3/4; 1/4]).
+Proof. exact generated_nonvacuous. Qed.
+
+(* ================================================================================================ *)
+(* CALL HISTORIES (Model_stats_session.v): live orientation / volume objects that the caller modifies *)
+(* in place between calls (refill, set one entry, rescale, reorder grains); a call names two objects,  *)
+(* n_samples and a seed.  `run false` is the source as it is, `run true` a variant that remembers the  *)
+(* last seeded result per (object identities, shape, n_samples, seed).  ORACLES per call k: argsort k, *)
+(* draw k (the generator created by call k).                                                          *)
+(* ================================================================================================ *)
+
+(* in ANY history every call of the source is the one-call function Model_stats.resample of what its
+   two argument objects contain at the time of the call, of n_samples and of that call's generator --
+   whatever the memo slot holds, whatever was called before *)
+Theorem C15_session_calls_are_pure :
+  forall O argsort draw (h : list (@sop NumR O)) st k m,
+  @run NumR O argsort draw false (st, k, m) h = map (@out_of_ctx NumR O argsort draw) (@contexts NumR O st k h).
+Proof. intros O argsort draw. exact (session_calls_are_pure argsort draw). Qed.
+
+(* pairing over histories: whatever any call of any history returns is a grain of the same snapshot of
+   its arguments AS THEY ARE at the time of that call *)
+Theorem C15_session_membership :
+  forall O argsort draw (h : list (@sop NumR O)) st k m,
+  Forall2 (fun (c : @call_ctx NumR O) out =>
+             forall oo ff, out = Ok (oo, ff) ->
+             forall i s orow frow o x,
+               nth_error oo i = Some orow -> nth_error ff i = Some frow ->
+               nth_error orow s = Some o -> nth_error frow s = Some x ->
+               exists osnap fsnap j,
+                 nth_error (snd (snd (fst (fst (fst c))))) i = Some osnap /\
+                 nth_error (snd (snd (fst (fst c)))) i = Some fsnap /\
+                 nth_error osnap j = Some o /\ nth_error fsnap j = Some x)
+          (@contexts NumR O st k h) (@run NumR O argsort draw false (st, k, m) h).
+Proof. intros O argsort draw. exact (session_membership argsort draw). Qed.
+
+(* zero-volume grains over histories: volumes that are non-negative and sum to 1 at the time of a call
+   and variates in (0,1) give positive returned volumes in that call -- whatever the objects held before *)
+Theorem C15_session_zero_volume_never :
+  forall O argsort draw (h : list (@sop NumR O)) st k m,
+  (forall kk i f, is_perm (length f) (argsort kk i f)) ->
+  (forall kk i n, length (draw kk i n) = n /\ Forall (fun u => 0 < u < 1) (draw kk i n)) ->
+  Forall2 (fun (c : @call_ctx NumR O) out =>
+             forall oo ff, out = Ok (oo, ff) ->
+             Forall (fun f => Forall (fun x => 0 <= x) f /\ lsum f = 1) (snd (snd (fst (fst c)))) ->
+             Forall (fun row => Forall (fun x => 0 < x) row) ff)
+          (@contexts NumR O st k h) (@run NumR O argsort draw false (st, k, m) h).
+Proof. intros O argsort draw. exact (session_zero_volume_never argsort draw). Qed.
+
+(* two calls -- anywhere in their histories, on whichever objects -- whose arguments have equal shapes and
+   contents, equal n_samples, the same sort and the same generator stream (same seed) return the same *)
+Theorem C15_session_same_call :
+  forall O argsort draw (c c' : @call_ctx NumR O),
+  snd (fst (fst (fst c))) = snd (fst (fst (fst c'))) ->
+  snd (fst (fst c)) = snd (fst (fst c')) ->
+  snd (fst c) = snd (fst c') ->
+  (forall i f, argsort (fst (fst (fst (fst c)))) i f = argsort (fst (fst (fst (fst c')))) i f) ->
+  (forall i n, draw (fst (fst (fst (fst c)))) i n = draw (fst (fst (fst (fst c')))) i n) ->
+  @out_of_ctx NumR O argsort draw c = @out_of_ctx NumR O argsort draw c'.
+Proof. intros O argsort draw. exact (session_same_call argsort draw). Qed.
+
+(* the memoising variant is refuted: grains (7, 1), (8, 0); resample (seed 5, one sample, variate 1/2);
+   overwrite the volumes in place with (0, 1); resample the same objects with the same seed.  The source
+   returns (8, 1); the variant hands back (7, 1), which is no grain of the snapshot it was called on *)
+Theorem C15_session_memo_refuted :
+  @run NumR nat ex_argsort ex_draw true (ex_store, 0%nat, None) ex_history
+    = [Ok ([[7%nat]], [[1]]); Ok ([[7%nat]], [[1]])] /\
+  @run NumR nat ex_argsort ex_draw false (ex_store, 0%nat, None) ex_history
+    = [Ok ([[7%nat]], [[1]]); Ok ([[8%nat]], [[1]])] /\
+  @pure_run NumR nat ex_argsort ex_draw ex_store 0 ex_history
+    = [Ok ([[7%nat]], [[1]]); Ok ([[8%nat]], [[1]])] /\
+  snd (@fget NumR nat (store_after ex_store ex_history) 0) = [[0; 1]] /\
+  ~ (exists j, nth_error [7; 8]%nat j = Some 7%nat /\ nth_error [0; 1] j = Some 1).
+Proof. exact memo_refuted. Qed.
+
+Example C15_session_nonvacuous :
+  (forall kk i f, (length f = 2)%nat -> is_perm (length f) (ex_argsort kk i f)) /\
+  (forall kk i n, length (ex_draw kk i n) = n /\ Forall (fun u => 0 < u < 1) (ex_draw kk i n)) /\
+  @contexts NumR nat ex_store 0 ex_history
+    = [(0%nat, ([1; 2; 3; 3]%nat, [[7; 8]%nat]), ([1; 2]%nat, [[1; 0]]), Some 1%Z, Some 5%Z);
+       (1%nat, ([1; 2; 3; 3]%nat, [[7; 8]%nat]), ([1; 2]%nat, [[0; 1]]), Some 1%Z, Some 5%Z)].
+Proof. exact session_nonvacuous. Qed.
